@@ -409,9 +409,63 @@ def n10_map_collect(body, log):
         param = body[ps:pe].strip()
         cbody = body[bs:be]
         _forbid_control(m[bs:be], "N10")
-        new = "{ let mut __c: %s = Vec::new(); for %s in %s.%s() { __c.push(%s); } __c }" % (ty, param, recv, itk, cbody)
+        new = "{ let mut __c: %s = Vec::new();\nfor %s in %s.%s() { __c.push(%s); }\n__c }" % (ty, param, recv, itk, cbody)
         body = body[:rs] + new + body[end:]
         log.append("N10")
+
+
+def _early_return_to_else(cbody, m_cbody, log):
+    """N15: a closure body `{ if C { return V; } REST }` ==> `{ if C { V } else { REST } }` (an early return in tail
+    position of a closure is the value of the closure)."""
+    inner = cbody.strip()
+    if not inner.startswith("{"):
+        return cbody
+    mi = mask(inner)
+    k = skip_ws(mi, 1)
+    mm = re.match(r"if(?![A-Za-z0-9_])", mi[k:])
+    if not mm:
+        return cbody
+    # condition up to the block
+    j = k + 2
+    while j < len(mi) and mi[j] != "{":
+        if mi[j] in "([":
+            j = match_close(mi, j)
+        j += 1
+    cond = inner[k + 2:j].strip()
+    bc = match_close(mi, j)
+    blk = inner[j + 1:bc].strip()
+    rm = re.fullmatch(r"return\s+(.*?);?", blk, re.S)
+    if not rm:
+        return cbody
+    after = skip_ws(mi, bc + 1)
+    if mi.startswith("else", after):
+        return cbody
+    end = match_close(mi, 0)
+    rest = inner[bc + 1:end].strip()
+    if re.search(r"(?<![A-Za-z0-9_])return(?![A-Za-z0-9_])", mask(rest)):
+        return cbody
+    log.append("N15")
+    return "{ if %s { %s } else { %s } }" % (cond, rm.group(1).strip(), rest)
+
+
+def n14_skip_cloned_collect(body, log):
+    """N14: `X.iter().skip(K).cloned().collect::<Vec<T>>()` ==>
+       `{ let mut __c: Vec<T> = Vec::new(); let mut __i: usize = 0; for __x in X.iter() { if __i >= K { __c.push(__x.clone()); } __i += 1; } __c }`
+    (definition of skip + cloned + collect into a Vec)."""
+    while True:
+        m = mask(body)
+        hit = re.search(r"\.\s*iter\s*\(\s*\)\s*\.\s*skip\s*\(([^()]*)\)\s*\.\s*cloned\s*\(\s*\)\s*\.\s*collect\s*::\s*<\s*(Vec\s*<[^;]*?>)\s*>\s*\(\s*\)", m, re.S)
+        if not hit:
+            return body
+        dot = hit.start()
+        rs = _recv_start(m, dot)
+        recv = re.sub(r"\s+", "", body[rs:dot])
+        k = body[hit.start(1):hit.end(1)].strip()
+        ty = re.sub(r"\s+", "", body[hit.start(2):hit.end(2)])
+        new = ("{ let mut __c: %s = Vec::new(); let mut __i: usize = 0;\nfor __x in %s.iter() { if __i >= %s { __c.push(__x.clone()); } __i += 1; }\n__c }"
+               % (ty, recv, k))
+        body = body[:rs] + new + body[hit.end():]
+        log.append("N14")
 
 
 def n12_any_all(body, log):
@@ -435,16 +489,43 @@ def n12_any_all(body, log):
             raise Unsupported("N12: unexpected tokens after closure")
         param = body[ps:pe].strip()
         cbody = body[bs:be]
-        _forbid_control(m[bs:be], "N12") if not cbody.lstrip().startswith("{") else None
-        if cbody.lstrip().startswith("{") and re.search(r"(?<![A-Za-z0-9_])return(?![A-Za-z0-9_])", m[bs:be]):
-            # closure block with early returns: turn it into a labelled-free form is out of scope
-            raise Unsupported("N12: closure body with `return`")
+        if re.search(r"(?<![A-Za-z0-9_])return(?![A-Za-z0-9_])", m[bs:be]):
+            cbody = _early_return_to_else(cbody, m[bs:be], log)
+            if re.search(r"(?<![A-Za-z0-9_])return(?![A-Za-z0-9_])", mask(cbody)):
+                raise Unsupported("N12: closure body with a `return` that is not a leading early return")
         if which == "any":
-            new = "{ let mut __r = false; for %s in %s { if !__r { if %s { __r = true; } } } __r }" % (param, it, cbody)
+            new = "{ let mut __r = false;\nfor %s in %s { if !__r { if %s { __r = true; } } }\n__r }" % (param, it, cbody)
         else:
-            new = "{ let mut __r = true; for %s in %s { if __r { if !(%s) { __r = false; } } } __r }" % (param, it, cbody)
+            new = "{ let mut __r = true;\nfor %s in %s { if __r { if !(%s) { __r = false; } } }\n__r }" % (param, it, cbody)
         body = body[:rs] + new + body[close_p + 1:]
         log.append("N12")
+
+
+def n13_find(body, log):
+    """N13: `ITER.find(|P| B)` ==> `{ let mut __f = None; for P in ITER { if __f.is_none() { if B { __f = Some(P); } } } __f }`
+    (definition of Iterator::find: first element satisfying the predicate; the closure parameter of `find` is a reference to
+    the item, auto-deref makes the body type-check unchanged)."""
+    while True:
+        m = mask(body)
+        hit = re.search(r"\.\s*find\s*\(\s*\|", m)
+        if not hit:
+            return body
+        dot = hit.start()
+        rs = _recv_start(m, dot)
+        it = re.sub(r"\s+", "", body[rs:dot]) if "\n" in body[rs:dot] else body[rs:dot].strip()
+        open_p = m.index("(", dot)
+        close_p = match_close(m, open_p)
+        ci = skip_ws(m, open_p + 1)
+        ps, pe, bs, be = _closure_at(m, ci)
+        if skip_ws(m, be) != close_p:
+            raise Unsupported("N13: unexpected tokens after closure")
+        param = body[ps:pe].strip()
+        cbody = body[bs:be]
+        if re.search(r"(?<![A-Za-z0-9_])return(?![A-Za-z0-9_])", m[bs:be]):
+            raise Unsupported("N13: closure body with `return`")
+        new = "{ let mut __f = None;\nfor %s in %s { if __f.is_none() { if %s { __f = Some(%s); } } }\n__f }" % (param, it, cbody, param)
+        body = body[:rs] + new + body[close_p + 1:]
+        log.append("N13")
 
 
 RULES = {
@@ -457,10 +538,12 @@ RULES = {
     "N8": n8_guard_arms,
     "N10": n10_map_collect,
     "N12": n12_any_all,
+    "N13": n13_find,
+    "N14": n14_skip_cloned_collect,
 }
 
 # order matters: N8 restructures arms first, N4 then wraps guarded blocks, then closures are inlined
-DEFAULT_ORDER = ["N8", "N4", "N1", "N2", "N10", "N12", "N3", "N5"]
+DEFAULT_ORDER = ["N8", "N4", "N1", "N2", "N14", "N10", "N12", "N13", "N3", "N5"]
 
 
 def normalise(body, rules=None):
